@@ -244,6 +244,22 @@ def gen_samples(rng, fam, n, d, exact):
     return rows
 
 
+def inverse_stack(stack, z):
+    """TransformedMessage._inverse_transform for the stacks used by the projection generator"""
+    for t in stack:
+        if t[0] == "phi":
+            z = 0.5 * (1.0 + math.erf(z / math.sqrt(2.0)))
+        elif t[0] == "shift":
+            z = z * unhex(t[2]) + unhex(t[1])
+        elif t[0] == "log":
+            z = math.exp(z)
+        elif t[0] == "log10":
+            z = 10.0 ** z
+        elif t[0] == "exp":
+            z = math.log(z)
+    return z
+
+
 def gen_proj(ctx, count):
     rng = ctx.rng
     cases = []
@@ -267,13 +283,13 @@ def gen_proj(ctx, count):
              "log_weights": None if LW is None else [[hx(v) for v in row] for row in LW],
              "id": 2000 + i % 7, "lo": hx(lo), "hi": hx(hi), "t": None}
         if rng.random() < 0.25 and fam in ("normal", "gamma"):
+            # samples are drawn in the base space and mapped to the space of the transformed message
             tkind = rng.choice(["shifted", "lognormal", "uniform"]) if fam == "normal" else "shifted"
             stack = gen_stack(rng, tkind)
-            if tkind in ("lognormal",):
-                X = [[abs(v) + 0.125 for v in row] for row in X]
-            if tkind == "uniform":   # samples inside the support of the uniform message
-                sh, sc = unhex(stack[1][1]), unhex(stack[1][2])
-                X = [[sh + sc * (0.05 + 0.9 * rng.random()) for _ in row] for row in X]
+            Z = gen_samples(rng, fam, n, d, False)
+            if tkind == "uniform":
+                Z = [[0.4 * z for z in row] for row in Z]
+            X = [[inverse_stack(stack, z) for z in row] for row in Z]
             c["samples"] = [[hx(v) for v in row] for row in X]
             c["exact"] = False
             c["base"] = gen_message(rng, fam, scalar, d, 3000)
@@ -432,6 +448,9 @@ def case_classes(c, res, aspect):
         if aspect == "exception" and c["fam"] == "beta":
             cl.append("beta-project-raises")
         if c.get("t") is not None:
+            nonid = any(t[0] != "shift" or (unhex(t[1]), unhex(t[2])) != (0.0, 1.0) for t in c["t"]["stack"])
+            if aspect == "exception" and nonid and res.get("exc") == "AssertionError":
+                cl.append("transformed-project-raw-samples")   # raw samples fall outside the support of the base
             if aspect == "stats" and any(t[0] != "shift" or (unhex(t[1]), unhex(t[2])) != (0.0, 1.0) for t in c["t"]["stack"]):
                 cl.append("transformed-project-raw-samples")
             if aspect in ("t-limits", "limits", "id"):
@@ -497,11 +516,21 @@ def oracle_alg(c, res):
         if not nat_close(nat(desc(name)), expect, scale):
             out.append(("additivity", "%s: natural parameters %r expected %r" % (what, nat(desc(name)), expect)))
 
+    def ln(d):
+        return unhex(base_of(d)["log_norm"])
+
+    def div_lognorm(q, x, y, what):
+        # division subtracts log_norm (independent of the product defect)
+        if not close(ln(q), ln(x) - ln(y), 1e-9 * max(1.0, abs(ln(x)), abs(ln(y)))):
+            out.append(("div-lognorm", "%s: log_norm %r is not %r - %r" % (what, ln(q), ln(x), ln(y))))
+
     if law == "divmul":
+        div_lognorm(desc("r"), desc("ab"), b, "(a*b)/b")
         if valid(desc("ab")):
             additive("ab", combine(nat(a), nat(b), lambda x, y: x + y), "a*b")
             same("r", a, "(a*b)/b vs a")
     elif law == "muldiv":
+        div_lognorm(desc("q"), a, b, "a/b")
         if valid(desc("q")):
             additive("q", combine(nat(a), nat(b), lambda x, y: x - y), "a/b")
             same("r", a, "(a/b)*b vs a")
